@@ -3,6 +3,48 @@ layers) between two recording layers; shared by C06, C07, C08"""
 from sx import core, hooks, harness as H
 
 
+class det_entropy(object):
+    """harnesses that run the REAL python-axolotl (key generation, signatures) do so on a deterministic entropy stream, so that a run is a
+    function of the tree and the solver's scenario only: what passes once on the unchanged tree passes always (no rare-key flakes)"""
+
+    def __init__(self, label):
+        self.label = label.encode() if isinstance(label, str) else label
+
+    def __enter__(self):
+        import os, random, hashlib
+        self.os, self.random = os, random
+        self.saved = (os.urandom, random._urandom, random.getstate())
+        state = {"n": 0}
+        label = self.label
+
+        def urandom(n):
+            out = b""
+            while len(out) < n:
+                state["n"] += 1
+                out += hashlib.sha256(label + b"|" + str(state["n"]).encode()).digest()
+            return out[:n]
+        os.urandom = urandom
+        random._urandom = urandom
+        random.seed(hashlib.sha256(label).digest())
+        return self
+
+    def __exit__(self, *a):
+        self.os.urandom, self.random._urandom = self.saved[0], self.saved[1]
+        self.random.setstate(self.saved[2])
+        return False
+
+
+def deterministic(label):
+    def deco(fn):
+        def wrapper(ctx, *a, **k):
+            with det_entropy(label):
+                return fn(ctx, *a, **k)
+        wrapper.__name__ = fn.__name__
+        wrapper.__doc__ = fn.__doc__
+        return wrapper
+    return deco
+
+
 def mods():
     import yowsup.layers as L
     from yowsup.stacks.yowstack import YowStack, YowStackBuilder
